@@ -47,6 +47,8 @@ def body(ctx):
     handover(ctx, prog, viol)
     header(ctx, prog, viol)
     write_interest(ctx, prog, viol)
+    import c08
+    c08.loop_done(ctx, prog)   # the loop does not end (and the socket is not dropped) with queued bytes unwritten
     wi = [v for v in viol if v[0] in ('write-interest', 'interest-panic')]
     viol = [v for v in viol if v[0] not in ('write-interest', 'interest-panic')]
     if wi:
@@ -125,6 +127,8 @@ def write_loop(ctx, prog, viol):
                 last = tr[-1][0] if tr else None
                 ob = w1.outbuf
                 out = err_name(prog, rv)
+                if not isinstance(rv, Panic) or rv.kind == 'cut':
+                    conds.append(sealed_flag(prog, w1) == sym('sealed0', z3.BoolSort()))   # writing never seals or un-seals the buffer
                 if isinstance(rv, Panic) and rv.kind == 'cut':
                     if inductive:
                         pos = s.cut_frames[0].locals[cur].value
@@ -149,7 +153,7 @@ def write_loop(ctx, prog, viol):
                     conds = [z3.BoolVal(False)]
                     label = out
                 m = ctx.decide(f"c01.write.k{k}#{n}:{label}", s.pc, z3.And(*conds),
-                               group='write loop (inductive step from the loop head with any number of bytes already accepted): each slice offered to the transport is exactly the unaccepted remainder; would-block drops exactly the accepted prefix; a full flush clears; a write error is IoErrorWritingSocket and drops nothing',
+                               group='write loop (inductive step from the loop head with any number of bytes already accepted): each slice offered to the transport is exactly the unaccepted remainder; would-block drops exactly the accepted prefix; a full flush clears; a write error is IoErrorWritingSocket and drops nothing; the seal is kept',
                                sample={'iterations': k + 1, 'events': [t[0] for t in tr], 'result': label})
                 if m is not None:
                     viol.append(('write-loop', k, label, [t[0] for t in tr], ctx.explain(m, conds)[:3]))
@@ -417,7 +421,23 @@ fn verif_replay_c01() {
         let mut total: Vec<u8> = s.accepted.clone();
         if errors == 0 { total.extend_from_slice(&i.outbuf[0..]); }
         let prefix_ok = s.accepted.len() <= queued.len() && s.accepted[..] == queued[..s.accepted.len()];
+        if i.are_writes_sealed() != sealed { if bad.len() < 4 { bad.push(format!("write-loop:steps={:?}:seal-changed-from-{}-to-{}", steps, sealed, i.are_writes_sealed())); } }
         if !prefix_ok || (errors == 0 && total != queued) || errors != want_errors { if bad.len() < 4 { bad.push(format!("write-loop:steps={:?}:sealed={}:accepted={}:left={}:errors={}/{}", steps, sealed, s.accepted.len(), i.outbuf.len(), errors, want_errors)); } }
+    }
+    // 2b. a large backlog (2 MiB) written out in one go: same bytes, same seal
+    for sealed in [false, true].iter() {
+        let mut i = Inner::new(HeartbeatTimers::default(), 16);
+        i.outbuf.clear();
+        let mut big = crate::serialize::OutputBuffer::empty();
+        for _ in 0..512 { big.push_content_body(1, &[7u8; 4088]); }
+        i.outbuf.append(big);
+        if *sealed { i.seal_writes(); }
+        let queued = i.outbuf.len();
+        let mut s = Script { steps: vec![i32::MAX; 4], i: 0, accepted: Vec::new() };
+        let r = i.write_to_stream(&mut s);
+        if r.is_err() || s.accepted.len() != queued || !i.outbuf.is_empty() || i.are_writes_sealed() != *sealed {
+            bad.push(format!("large-flush:sealed={}:result_ok={}:accepted={}of{}:left={}:sealed_after={}", sealed, r.is_ok(), s.accepted.len(), queued, i.outbuf.len(), i.are_writes_sealed()));
+        }
     }
     // 3. appends: whole, in order, dropped once sealed
     {
